@@ -108,6 +108,12 @@ func vfC11Value(kind string, name string) (interface{}, Value) {
 	case "int32s":
 		y := vfInt64("y." + name)
 		return []int32{int32(x), int32(y)}, []int64{int64(int32(x)), int64(int32(y))}
+	case "ints0":
+		return []int{}, []int64{} // an empty list is normalised like any other
+	case "int32s0":
+		return []int32{}, []int64{}
+	case "ints1":
+		return []int{int(x)}, []int64{x}
 	case "int64s":
 		return []int64{x}, []int64{x}
 	case "strs":
